@@ -309,7 +309,7 @@ CHECKS['C06'] = dict(
          'Lean model; monitors: overshoot, slot leak, waited longer than the timeout (timed-wait accounting). Second model '
          '(Model/Wakeup, wait-for-room protocol): C06_wakeup_backlog_le_cap and the C07 wake-up theorems; every case of '
          'Server and AsyncServer is replayed through drv wakeup (ledger inserts/pops, wait/notify of the server\'s own condition).',
-    note=E1 + 'time is not modelled in Lean (wait bound evaluated on the real code only); the wake-up model counts callers (interchangeable) and does not model __exit__.',
+    note=E1 + 'time is not modelled in Lean (wait bound evaluated on the real code only); the wake-up model counts callers (interchangeable) and does not model __exit__; process servlets: OS schedule, sampled with monitors only (harness/abandon_proc.py).',
     ref='§5 C06', engine='E1-detsched+lean')
 CHECKS['C07'] = dict(
     technique='Lean 4 proof (invariants of the ledger LTS with deadline expiry enabled at every step; invariant, measure and quiescence theorem of the wait-for-room LTS) + schedule-controlled trace refinement with early timer firing',
